@@ -313,7 +313,12 @@ if validate_rfc3339:
         return is_datetime("1970-01-01T" + instance)
 
 
-@_checks_drafts(name="regex", raises=(re.error, OverflowError))
+@_checks_drafts(
+    name="regex",
+    # whatever makes the engine give up on a pattern: a syntax error, or a
+    # repetition count or nesting depth that it cannot represent
+    raises=(re.error, OverflowError, RecursionError, ValueError),
+)
 def is_regex(instance):
     if not isinstance(instance, str):
         return True
